@@ -5,7 +5,7 @@ HERE = os.path.dirname(os.path.dirname(os.path.abspath(__file__)))
 
 CLAIMED = {
     "C01": dict(cat="exploration", ref="DESIGN.md 4 (C01)",
-        text="Seeded search over connections (intent, secret, claimed identity, authentication verdict incl. errors and latency, 8 Encryption Response variants, valid and subtly invalid cookies) through the real Connection; history oracle: grant packets require an honest token and a voucher, the service is asked with the connection's secret / key / claim, every later use of the identity (Login Success, filter, strategy, issued cookie) is the vouched one. Later rounds added: zero-time transport faults (frames coalesced into one read, cuts down to one byte, spurious Pending, short write acceptance), the token of a real previous connection, degenerate verdicts (empty name, nil UUID), long names, 5-8 KB profiles, and the rule that every service call carries the connection's own client address. Fourth round: two-connection histories in which an earlier connection of the same process is accepted with a genuine cookie and the next one presents that cookie's tag in front of a body naming somebody else (primes whatever the code keeps between connections).",
+        text="Seeded search over connections (intent, secret, claimed identity, authentication verdict incl. errors and latency, 8 Encryption Response variants, valid and subtly invalid cookies) through the real Connection; history oracle: grant packets require an honest token and a voucher, the service is asked with the connection's secret / key / claim, every later use of the identity (Login Success, filter, strategy, issued cookie) is the vouched one. Later rounds added: zero-time transport faults (frames coalesced into one read, cuts down to one byte, spurious Pending, short write acceptance), the token of a real previous connection, degenerate verdicts (empty name, nil UUID), long names, 5-8 KB profiles, and the rule that every service call carries the connection's own client address. Fourth round: two-connection histories in which an earlier connection of the same process is accepted with a genuine cookie and the next one presents that cookie's tag in front of a body naming somebody else (primes whatever the code keeps between connections). One evaluation in ten runs the listener mode: 2-14 players log in through one real Listener at nearly the same time, each with a claim, an address and (for some) a genuine cookie of its own; every Login Success must carry the identity vouched for on that very connection (props/swarm.rs).",
         note="Scripted authentication service stands in for the session server; independent client codec/RSA/CFB8 trusted (interoperates with the real server on every honest run).",
         tech="deterministic simulation; history invariants over the recorded event log"),
     "C02": dict(cat="fault_enumeration", ref="DESIGN.md 4 (C02)",
@@ -13,19 +13,19 @@ CLAIMED = {
         note="Trusts the oracle's HMAC/JSON check and the simulated wall clock being the only clock read (hook H2).",
         tech="deterministic simulation; enumerated cookie faults; independent acceptance predicate"),
     "C03": dict(cat="exploration", ref="DESIGN.md 4 (C03)",
-        text="Seeded routing scenarios (target lists with duplicates and IPv6, every filter/strategy outcome incl. errors, latencies up to 40 s, client locales against random tables through the real FixedLocalizationAdapter); oracle: pipeline wiring equalities from the call log, exactly one final Transfer naming the chosen address or one localized Disconnect, nothing after it. Later rounds added: IPv4-mapped / IPv4-compatible / loopback / unspecified / port-boundary target addresses, non-ASCII messages, locales beyond 16 bytes, zero-time transport faults incl. padded frame length prefixes. Fourth round: messages of 16-33 KB (three-byte frame length prefix), a Keep Alive held back by the transport across the completion of a back-end call.",
+        text="Seeded routing scenarios (target lists with duplicates and IPv6, every filter/strategy outcome incl. errors, latencies up to 40 s, client locales against random tables through the real FixedLocalizationAdapter); oracle: pipeline wiring equalities from the call log, exactly one final Transfer naming the chosen address or one localized Disconnect, nothing after it. Later rounds added: IPv4-mapped / IPv4-compatible / loopback / unspecified / port-boundary target addresses, non-ASCII messages, locales beyond 16 bytes, zero-time transport faults incl. padded frame length prefixes. Fourth round: messages of 16-33 KB (three-byte frame length prefix), a Keep Alive held back by the transport across the completion of a back-end call. One evaluation in eight runs the listener mode (several players through one real Listener, a discovery answer per call, the strategy picks by player): each connection's filters, strategy, Transfer and issued cookie must be fed from its own calls. Also: clients that take seconds to hang up after the final packet, back-ends whose first call fails although a second would succeed, an earlier connection of the thread that ended with a broken transport.",
         note="Locale tables lacking the applicable key are don't-care; text components compared as values.",
         tech="deterministic simulation; wiring equalities + independent locale fallback"),
     "C06": dict(cat="exploration", ref="DESIGN.md 4 (C06)",
-        text="Seeded scripted serverbound sequences (legal script with one deviation: close/reset, duplicate, skipped packet, unknown next-state, dishonest Encryption Response, any packet id of any phase) run against the real Connection; the observed clientbound kind sequence must equal the output of a reference automaton written from the property text; status body equals the service answer as a JSON value, Pong echoes the payload, no routing call before Login Acknowledged and Client Information. Later rounds added: burst scripts (every frame in the pipe before the server reads the first), coalesced reads, cuts, padded length prefixes. Fourth round: status answers of 3-30 KB (around and beyond the three-byte length prefix at 16384).",
+        text="Seeded scripted serverbound sequences (legal script with one deviation: close/reset, duplicate, skipped packet, unknown next-state, dishonest Encryption Response, any packet id of any phase) run against the real Connection; the observed clientbound kind sequence must equal the output of a reference automaton written from the property text; status body equals the service answer as a JSON value, Pong echoes the payload, no routing call before Login Acknowledged and Client Information. Later rounds added: burst scripts (every frame in the pipe before the server reads the first), coalesced reads, cuts, padded length prefixes. Fourth round: status answers of 3-30 KB (around and beyond the three-byte length prefix at 16384). Also: a status service that takes up to 3 s while the ping is already in the pipe, returning players with a genuine cookie in the scripts (a dishonest Encryption Response still ends the connection), an earlier connection that ended with a broken transport.",
         note="Unknown packets inside the configuration phase and unclassifiable bodies under the expected id are don't-care from that point (prefix compared).",
         tech="deterministic simulation; refinement against a reference protocol automaton"),
     "C07": dict(cat="exploration", ref="DESIGN.md 4 (C07)",
-        text="Seeded schedules under virtual time (service latencies 0-100 s incl. exactly 16/32 s, late Login Acknowledged / Client Information, per-keep-alive echo policy: prompt, delayed below/above the period, never, wrong id, duplicate, unsolicited) with tie-free offsets; ex-post timing oracle on the server's writes: a tick event at least every 16 s, timeout iff the previous Keep Alive was not echoed strictly before, otherwise the correct final packet at the instant the last service completes. Later rounds added: client think time of 0-40 s in the login phase (nothing but login packets before Login Success), a client that pipelines Login Acknowledged behind its Encryption Response while authentication takes several periods, and the rule that a timeout at the very instant of the Keep Alive drops a prompt client. Fourth round: a back-pressure mode (silent client, routing of 70 s and more, the first Keep Alive held back entirely or after a few bytes until the running back-end call completes) judged by counts and order only.",
+        text="Seeded schedules under virtual time (service latencies 0-100 s incl. exactly 16/32 s, late Login Acknowledged / Client Information, per-keep-alive echo policy: prompt, delayed below/above the period, never, wrong id, duplicate, unsolicited) with tie-free offsets; ex-post timing oracle on the server's writes: a tick event at least every 16 s, timeout iff the previous Keep Alive was not echoed strictly before, otherwise the correct final packet at the instant the last service completes. Later rounds added: client think time of 0-40 s in the login phase (nothing but login packets before Login Success), a client that pipelines Login Acknowledged behind its Encryption Response while authentication takes several periods, and the rule that a timeout at the very instant of the Keep Alive drops a prompt client. Fourth round: a back-pressure mode (silent client, routing of 70 s and more, the first Keep Alive held back entirely or after a few bytes until the running back-end call completes) judged by counts and order only. A timeout that follows the Keep Alive it refers to by less than 15 s (the protocol's response time) is a violation - the check's reading of 'before the next is due', found defect F14 on the unchanged tree.",
         note="Exact ties with a tick are excluded by construction; transport instantaneous here (C08 owns segmentation).",
         tech="deterministic simulation under paused clock; timing invariants and bounded liveness on virtual timestamps"),
     "C08": dict(cat="fault_enumeration", ref="DESIGN.md 4 (C08)",
-        text="Differential: each generated scenario is executed unsegmented (reference) and under a transport fault plan (variant): half of the runs enumerate a cut at (frame, byte offset) by run index with a gate from {spurious Pending, 1 ms, seconds, just after the next keep-alive tick, just after the next service completion}, the rest use multi-cut / one-byte-at-a-time plans and write-acceptance plans (1-byte and short prefixes, Pending for a duration, Pending until a service completes). Masked clientbound packets, service call log and result class must be identical; frames must arrive complete; bounded completion after the last event. Later rounds added: coalesced reads in the variant, richer bases (authentication latency and verdicts, valid cookies), a write fault aimed at one Keep Alive frame (short accept + held until the running service completes), silent clients as bases.",
+        text="Differential: each generated scenario is executed unsegmented (reference) and under a transport fault plan (variant): half of the runs enumerate a cut at (frame, byte offset) by run index with a gate from {spurious Pending, 1 ms, seconds, just after the next keep-alive tick, just after the next service completion}, the rest use multi-cut / one-byte-at-a-time plans and write-acceptance plans (1-byte and short prefixes, Pending for a duration, Pending until a service completes). Masked clientbound packets, service call log and result class must be identical; frames must arrive complete; bounded completion after the last event. Later rounds added: coalesced reads in the variant, richer bases (authentication latency and verdicts, valid cookies), a write fault aimed at one Keep Alive frame (short accept + held until the running service completes), silent clients as bases. Fourth round: clients that pipeline behind their Encryption Response among the bases, write holds aimed at the timeout Disconnect (found defect F13 on the unchanged tree in the thorough tier, now within the first evaluations of the quick tier), an earlier connection that ended with a broken transport with a before/after comparison of the undisturbed execution.",
         note="A variant is judged only if every keep-alive echo was still available in time (measured from the pipe, not assumed); masked: verify token, session/trace id, cookie second, keep-alives.",
         tech="deterministic simulation; differential trace equality under enumerated segmentation and write-acceptance faults"),
     "C10": dict(cat="exploration", ref="DESIGN.md 4 (C10)",
@@ -33,11 +33,11 @@ CLAIMED = {
         note="Trusts the oracle's HMAC/JSON check; gap beyond expiry is left to C02.",
         tech="deterministic simulation; two-connection history check with simulated wall clock"),
     "C04": dict(cat="fault_enumeration", ref="DESIGN.md 4 (C04)",
-        text="Four honest transcripts with exactly one mutation enumerated by run index over every frame and byte offset (outer length boundary values with the prefix delivered alone, truncation at every offset + EOF/reset, every offset replaced by hostile VarInts / bytes / invalid UTF-8 with the outer length repaired, junk appended, wire bit flips incl. ciphertext, 12 Encryption Response variants), several maximum frame sizes, a third under segmentation. Observed: panic hook, counting allocator (largest single request while the handler is polled), virtual time from EOF delivery to return, reads after EOF. Later rounds added: frames really longer than the maximum delivered whole in one segment at every protocol step, bursts of 200-3000 valid ignorable frames in one segment (buffer growth), odd locales with the no-target Disconnect path, a watchdog that turns a non-yielding loop into a violation with replay. Fourth round: legal ignorable frames of exactly max / max-1 / max-2 / max-3 bytes (whole, in pieces, followed by EOF) must be consumed.",
+        text="Four honest transcripts with exactly one mutation enumerated by run index over every frame and byte offset (outer length boundary values with the prefix delivered alone, truncation at every offset + EOF/reset, every offset replaced by hostile VarInts / bytes / invalid UTF-8 with the outer length repaired, junk appended, wire bit flips incl. ciphertext, 12 Encryption Response variants), several maximum frame sizes, a third under segmentation. Observed: panic hook, counting allocator (largest single request while the handler is polled), virtual time from EOF delivery to return, reads after EOF. Later rounds added: frames really longer than the maximum delivered whole in one segment at every protocol step, bursts of 200-3000 valid ignorable frames in one segment (buffer growth), odd locales with the no-target Disconnect path, a watchdog that turns a non-yielding loop into a violation with replay. Fourth round: legal ignorable frames of exactly max / max-1 / max-2 / max-3 bytes (whole, in pieces, followed by EOF) must be consumed. Also: unsolicited Keep Alive ids at the edge of the value range, length prefixes that put 2^21 / 2^28 / 2^30 over the frame's real length.",
         note="Samples random bytes for junk/flip positions; allocation bound max(64 KiB, 8 x max frame) is the check's reading of 'out of proportion'.",
         tech="deterministic simulation; enumerated frame mutations with panic/allocation/termination monitors"),
     "C05": dict(cat="fault_enumeration", ref="DESIGN.md 4 (C05)",
-        text="Seeded search over poll-level I/O schedules against the real CipherStream (Pending, prefix acceptance, retry with another buffer, reads down to 1 byte, pre-filled ReadBuf, switch at any operation boundary) plus whole logins through the real Connection under write faults; oracle is an independent CFB8 on the raw AES block function. Samples schedules, does not enumerate them all. Fourth round: bytes read ahead of the switch and decrypted in place (decrypt_buffered) as an operation of the unit layer; clients that pipeline behind their Encryption Response in the login layer.",
+        text="Seeded search over poll-level I/O schedules against the real CipherStream (Pending, prefix acceptance, retry with another buffer, reads down to 1 byte, pre-filled ReadBuf, switch at any operation boundary) plus whole logins through the real Connection under write faults; oracle is an independent CFB8 on the raw AES block function. Samples schedules, does not enumerate them all. Fourth round: bytes read ahead of the switch and decrypted in place (decrypt_buffered) as an operation of the unit layer; clients that pipeline behind their Encryption Response in the login layer. Also: gathered writes (poll_write_vectored over two or three slices against a transport that accepts them).",
         note="Trusts the oracle's 25-line CFB8 and the aes crate's block function; transport is the scripted stub.",
         tech="deterministic simulation: scripted-transport fault injection, independent CFB8 oracle"),
     "C13": dict(cat="exploration", ref="DESIGN.md 4 (C13)",
@@ -48,11 +48,11 @@ CLAIMED = {
 
 CLAIMED.update({
     "C14": dict(cat="exploration", ref="DESIGN.md 4 (C14)",
-        text="Seeded configurations started through passage::start(config) with built-in adapters, or as a Listener with sim services whose discovery never answers, on the simulated network; clients probe the configured frame limit at max / max+1, cookies at expiry-1 / expiry / expiry+1 under the configured or another secret, and the deadline (silent, trickling one byte every k s, stopping after n frames, echoing keep-alives forever). Oracle: served / refused according to the configured values, server end closed no later than timeout after accept. Later rounds added: PROXY protocol on (admission = header complete, itself bounded by the timeout), trickling headers, a client that stops reading, secrets with surrounding whitespace, timeout 0. Fourth round: an over-long frame after login once the read buffer has grown, cookies answered seconds late (age at the check), and the server must let go of the socket - not only end its own direction - by the deadline.",
+        text="Seeded configurations started through passage::start(config) with built-in adapters, or as a Listener with sim services whose discovery never answers, on the simulated network; clients probe the configured frame limit at max / max+1, cookies at expiry-1 / expiry / expiry+1 under the configured or another secret, and the deadline (silent, trickling one byte every k s, stopping after n frames, echoing keep-alives forever). Oracle: served / refused according to the configured values, server end closed no later than timeout after accept. Later rounds added: PROXY protocol on (admission = header complete, itself bounded by the timeout), trickling headers, a client that stops reading, secrets with surrounding whitespace, timeout 0. Fourth round: an over-long frame after login once the read buffer has grown, cookies answered seconds late (age at the check), and the server must let go of the socket - not only end its own direction - by the deadline. Also: handshake frames that declare their real length plus 2^21 / 2^28 / 2^30, prefix delivered first, must be refused on the declared length.",
         note="Built-in Fixed adapters stand in for back-ends in start mode; the interrupt signal is not raised here (C17 does).",
         tech="deterministic simulation on an in-memory network; config-conformance and deadline invariants"),
     "C15": dict(cat="exploration", ref="DESIGN.md 4 (C15)",
-        text="Seeded arrival histories of up to 40 connections through 1-3 load-balancer peers with PROXY v1/v2 headers from an independent writer (valid, LOCAL/UNKNOWN, bad signature, truncated+EOF, absent, disabled version), limiter off or small enough to refuse; oracle: a second real RateLimiter fed with the effective IPs of the valid connections at the same virtual instants decides who must be served; refused and invalid connections receive zero bytes; services and issued cookies see the announced source. Later rounds added: headers that trickle in (admission and limiter feed at header completion, ties give no verdict), header and handshake in one read, datagram-transport v2 headers. Fourth round: part of a header followed by silence until the listener's deadline (2 s or 30 s) consumes no budget.",
+        text="Seeded arrival histories of up to 40 connections through 1-3 load-balancer peers with PROXY v1/v2 headers from an independent writer (valid, LOCAL/UNKNOWN, bad signature, truncated+EOF, absent, disabled version), limiter off or small enough to refuse; oracle: a second real RateLimiter fed with the effective IPs of the valid connections at the same virtual instants decides who must be served; refused and invalid connections receive zero bytes; services and issued cookies see the announced source. Later rounds added: headers that trickle in (admission and limiter feed at header completion, ties give no verdict), header and handshake in one read, datagram-transport v2 headers. Fourth round: part of a header followed by silence until the listener's deadline (2 s or 30 s) consumes no budget. A quarter of the histories run through passage::start (configuration -> limiter / PROXY wiring); IPv4-mapped, IPv4-compatible and loopback sources.",
         note="The shadow limiter is the real one so limiter defects are not misattributed (C13 owns them).",
         tech="deterministic simulation on an in-memory network; shadow-limiter history oracle"),
     "C16": dict(cat="exploration", ref="DESIGN.md 4 (C16)",
